@@ -79,6 +79,8 @@ struct SeedInput {
     cp_targets: Vec<u16>,
     cp_count: u16,
     is_corpus: bool,
+    /// one evaluation costs tens of milliseconds (tens of thousands of nested resolutions): a few dozen mutations only
+    slow: bool,
 }
 
 #[derive(Clone, Debug, Serialize, Deserialize, PartialEq)]
@@ -115,6 +117,12 @@ pub fn units(tier: Tier, seed: u64) -> Vec<UnitSpec> {
     // hand-built structures first (cheap, and the ones most likely to kill a child)
     for name in ["self-dynamic", "two-cycle-dynamic"] {
         u.push(UnitSpec::Special { name: name.into(), depth: 0 });
+    }
+    // a 16-level DAG of Dynamic constants, each level naming the next one twice as bootstrap argument (65535 nested
+    // resolutions for one load of the head), loaded 1 / 2 / 40 / 400 times by one method: the reader's budget of
+    // nested resolutions must hold per class file, not per load (missed seeded change C16-4)
+    for d in [1u32, 2, 40, 400] {
+        u.push(UnitSpec::Special { name: "dynamic-dag".into(), depth: d });
     }
     let depths: &[u32] = match tier {
         Tier::Quick => &[70, 3_000, 60_000],
@@ -241,11 +249,11 @@ fn cp_scan(b: &[u8]) -> (u16, Vec<u16>) {
 
 fn class_seed(bytes: Vec<u8>, spans: Vec<Span>) -> SeedInput {
     let (cp_count, cp_targets) = cp_scan(&bytes);
-    SeedInput { kind: Kind::Class, bytes, spans, nns: 0, cp_targets, cp_count, is_corpus: false }
+    SeedInput { kind: Kind::Class, bytes, spans, nns: 0, cp_targets, cp_count, is_corpus: false, slow: false }
 }
 
 fn text_seed(kind: Kind, bytes: Vec<u8>, nns: usize) -> SeedInput {
-    SeedInput { kind, bytes, spans: vec![], nns, cp_targets: vec![], cp_count: 0, is_corpus: false }
+    SeedInput { kind, bytes, spans: vec![], nns, cp_targets: vec![], cp_count: 0, is_corpus: false, slow: false }
 }
 
 fn push_u16(v: &mut Vec<u8>, x: u16) {
@@ -369,6 +377,54 @@ fn special(name: &str, depth: u32) -> SeedInput {
             push_u16(&mut bm, 12);
             let b = assemble(&cp, 19, 2, 4, &[], 0, &m, 1, &attr(8, &bm), 1);
             class_seed(b, vec![])
+        }
+        "dynamic-dag" => {
+            const LEVELS: u16 = 16;
+            // 1 "A" 2 Class1 3 "java/lang/Object" 4 Class3 5 "m" 6 "()V" 7 "Code" 8 "BootstrapMethods" 9 "x" 10 "I"
+            // 11 NameAndType 9,10  12 "bsm" 13 "()Ljava/lang/Object;" 14 NameAndType 12,13  15 Methodref 2,14
+            // 16 MethodHandle 6,15  17.. Dynamic bsm i, nat 11
+            let mut cp = vec![e_utf8("A"), e_class(1), e_utf8("java/lang/Object"), e_class(3), e_utf8("m"), e_utf8("()V"), e_utf8("Code"), e_utf8("BootstrapMethods"), e_utf8("x"), e_utf8("I")];
+            cp.push(vec![12, 0, 9, 0, 10]);
+            cp.push(e_utf8("bsm"));
+            cp.push(e_utf8("()Ljava/lang/Object;"));
+            cp.push(vec![12, 0, 12, 0, 13]);
+            cp.push(vec![10, 0, 2, 0, 14]);
+            cp.push(vec![15, 6, 0, 15]);
+            for i in 0..LEVELS {
+                cp.push(vec![17, (i >> 8) as u8, i as u8, 0, 11]);
+            }
+            let mut code = vec![];
+            push_u16(&mut code, 1);
+            push_u16(&mut code, 1);
+            push_u32(&mut code, 3 * depth + 1);
+            for _ in 0..depth {
+                code.extend_from_slice(&[0x12, 17, 0x57]);
+            }
+            code.push(0xb1);
+            push_u16(&mut code, 0);
+            push_u16(&mut code, 0);
+            let mut m = vec![];
+            push_u16(&mut m, 0x0009);
+            push_u16(&mut m, 5);
+            push_u16(&mut m, 6);
+            push_u16(&mut m, 1);
+            m.extend_from_slice(&attr(7, &code));
+            let mut bm = vec![];
+            push_u16(&mut bm, LEVELS);
+            for i in 0..LEVELS {
+                push_u16(&mut bm, 16);
+                if i + 1 < LEVELS {
+                    push_u16(&mut bm, 2);
+                    push_u16(&mut bm, 17 + i + 1);
+                    push_u16(&mut bm, 17 + i + 1);
+                } else {
+                    push_u16(&mut bm, 0);
+                }
+            }
+            let b = assemble(&cp, 17 + LEVELS, 2, 4, &[], 0, &m, 1, &attr(8, &bm), 1);
+            let mut sd = class_seed(b, vec![]);
+            sd.slow = true;
+            sd
         }
         "deep-annotation" | "deep-array-value" => {
             let cp = nest_pool("RuntimeVisibleAnnotations");
@@ -664,6 +720,15 @@ fn enumerate(seed: &SeedInput, tier: Tier, r: &mut Rng) -> Vec<Mut> {
     let thorough = tier == Tier::Thorough;
     let n = seed.bytes.len();
     let mut m = vec![Mut::None];
+    if seed.slow {
+        for k in 0..24 {
+            m.push(Mut::Trunc { at: n - 1 - (k * n / 24).min(n - 1) });
+        }
+        for _ in 0..24 {
+            m.push(Mut::Flip { off: r.usize(n), bit: r.below(8) as u8 });
+        }
+        return m;
+    }
     // hand-built deep structures parse slowly (one recursion level per few bytes): sample their truncations
     let big = n > 64 * 1024 || (seed.spans.is_empty() && seed.kind == Kind::Class && n > 4096 && !seed.is_corpus);
     // (a) truncation at every offset (complete); for the huge hand-built inputs: every offset in the first and last
